@@ -17,6 +17,18 @@ type Collector struct {
 	cond      *sync.Cond
 	recs      []verifhook.Record
 	sessStart map[string]int // "node|session label" -> index of the latest sess_start event
+	delays    sync.Map       // event name -> time.Duration: the emitting goroutine pauses right after that hook point
+}
+
+// SetDelay makes every goroutine that emits event ev pause for d right after the hook point (0 removes it). This is a
+// schedule perturbation only: it widens the window between two statements of the code under test, it changes no state.
+func (c *Collector) SetDelay(ev string, d time.Duration) {
+	if d <= 0 {
+		c.delays.Delete(ev)
+
+		return
+	}
+	c.delays.Store(ev, d)
 }
 
 // Install creates a collector and installs it as the verifhook sink.
@@ -33,6 +45,11 @@ func Install() *Collector {
 		c.recs = append(c.recs, r)
 		c.cond.Broadcast()
 		c.mu.Unlock()
+		if ev, ok := r["ev"].(string); ok {
+			if d, ok := c.delays.Load(ev); ok {
+				time.Sleep(d.(time.Duration))
+			}
+		}
 	})
 
 	return c
